@@ -395,18 +395,28 @@ fn refine(p: &Node, class: &str, case: &Case) -> String {
 }
 
 pub fn eval_case(prop: &str, case: &Case, oracles: &[Oracle], st: &mut Stats, depth: usize, tainted: &HashSet<String>) {
-  eval_case_x(prop, case, oracles, st, depth, tainted, false);
+  eval_case_x(prop, case, oracles, st, depth, tainted, drops_value_early(case, oracles));
   // pipelines through ref_count()/replay(): once more with the caller dropping the Observable value right
   // after the last subscribe - the subscriptions alone have to keep the sharing machinery alive
   let shares = case.pipeline.ops().iter().any(|o| matches!(o, Op::RefCount | Op::ReplayConn));
-  let nests = case.acts.iter().any(|a| matches!(a, Act::Nest { .. }));
+  let nests = case.acts.iter().any(|a| matches!(a, Act::Nest { .. } | Act::NestFromTap { .. }));
   if shares && !nests && !oracles.contains(&Oracle::Release) {
     eval_case_x(prop, case, oracles, st, depth, tainted, true);
   }
 }
 
+/// every other case (by a parity of its shape, so that each pipeline meets both modes across its
+/// worlds) drops the Observable value right after the last subscribe, as callers usually do: nothing
+/// a live subscription needs may hang on the value it was made from
+fn drops_value_early(case: &Case, oracles: &[Oracle]) -> bool {
+  let nests = case.acts.iter().any(|a| matches!(a, Act::Nest { .. } | Act::NestFromTap { .. }));
+  let shares = case.pipeline.ops().iter().any(|o| matches!(o, Op::RefCount | Op::ReplayConn));
+  !nests && !shares && !oracles.contains(&Oracle::Release) && (case.acts.len() + case.pipeline.ops().len()) % 2 == 1
+}
+
 fn eval_case_x(prop: &str, case: &Case, oracles: &[Oracle], st: &mut Stats, depth: usize, tainted: &HashSet<String>, drop_early: bool) {
   let opts = RunOpts { check_tokens: oracles.contains(&Oracle::Release), drop_pipeline_early: drop_early };
+  let shown = if drop_early { format!("{} ; [the Observable value is dropped right after the last subscribe]", case.show()) } else { case.show() };
   let real = run_real(case, &opts);
   st.runs += 1;
   st.steps += case.acts.len() as u64;
@@ -418,17 +428,17 @@ fn eval_case_x(prop: &str, case: &Case, oracles: &[Oracle], st: &mut Stats, dept
   if let Some(sd) = &real.self_deadlock {
     st.self_deadlocks += 1;
     if prop == "C07" {
-      st.add_finding(format!("{}/self-deadlock", locus(p)), sd.clone(), case.show());
+      st.add_finding(format!("{}/self-deadlock", locus(p)), sd.clone(), shown.clone());
     }
     return;
   }
   if let Some(ll) = &real.livelock {
     // a producer loop that spins on a subscription that has ended (C06 / C07); reported wherever it is seen
-    st.add_finding(format!("{}/livelock-producer-keeps-spinning", locus(p)), ll.clone(), case.show());
+    st.add_finding(format!("{}/livelock-producer-keeps-spinning", locus(p)), ll.clone(), shown.clone());
     return;
   }
   if let Some(pn) = &real.panic {
-    st.add_finding(format!("{}/panic", locus(p)), pn.clone(), case.show());
+    st.add_finding(format!("{}/panic", locus(p)), pn.clone(), shown.clone());
     return;
   }
   let needs_ref = oracles.iter().any(|o| matches!(o, Oracle::Functional | Oracle::Teardown | Oracle::Independence));
@@ -463,12 +473,12 @@ fn eval_case_x(prop: &str, case: &Case, oracles: &[Oracle], st: &mut Stats, dept
             if compare_events(&real, &ar, case.acts.len()).is_none() {
               explained = true;
               for n in names.iter().filter(|_| *o == Oracle::Functional) {
-                st.add_finding(n.to_string(), format!("(the operator behaves exactly as it did before its repair - see known_findings.json) {}", m.detail), case.show());
+                st.add_finding(n.to_string(), format!("(the operator behaves exactly as it did before its repair - see known_findings.json) {}", m.detail), shown.clone());
               }
             }
           }
           if !explained {
-            st.add_finding(refine(p, &m.class, case), m.detail, case.show());
+            st.add_finding(refine(p, &m.class, case), m.detail, shown.clone());
           }
         } else {
           // the error must carry the very same payload object
@@ -477,12 +487,12 @@ fn eval_case_x(prop: &str, case: &Case, oracles: &[Oracle], st: &mut Stats, dept
               let injected = real.err_addrs.iter().any(|(kk, a)| *kk == k && *a == e.err_addr);
               let synthesized = !real.err_addrs.iter().any(|(kk, _)| *kk == k);
               if !injected && !synthesized {
-                st.add_finding(format!("{}/error-payload-not-identical", locus(p)), format!("error {} delivered with a different payload object", k), case.show());
+                st.add_finding(format!("{}/error-payload-not-identical", locus(p)), format!("error {} delivered with a different payload object", k), shown.clone());
               }
             }
           }
           if real.tap_log != r.tap_log {
-            st.add_finding(format!("{}/tap-side-effects", locus(p)), format!("tap saw [{}], reference [{}]", show_evs(&real.tap_log), show_evs(&r.tap_log)), case.show());
+            st.add_finding(format!("{}/tap-side-effects", locus(p)), format!("tap saw [{}], reference [{}]", show_evs(&real.tap_log), show_evs(&r.tap_log)), shown.clone());
           }
         }
       }
@@ -505,7 +515,7 @@ fn eval_case_x(prop: &str, case: &Case, oracles: &[Oracle], st: &mut Stats, dept
               st.add_finding(
                 format!("{}/item-of-the-first-input-after-the-switch", locus(p)),
                 format!("{} of the first input delivered after an item of the second: {} | real: {}", e.show(), show_evs(&out), real.show()),
-                case.show(),
+                shown.clone(),
               );
               break;
             }
@@ -523,7 +533,7 @@ fn eval_case_x(prop: &str, case: &Case, oracles: &[Oracle], st: &mut Stats, dept
               st.add_finding(
                 format!("{}/{}", locus(p), class),
                 format!("recorder #{} saw {}", rec, show_evs(&real.all_of(rec))),
-                case.show(),
+                shown.clone(),
               );
             }
             if rec % 100 == 0 {
@@ -534,7 +544,7 @@ fn eval_case_x(prop: &str, case: &Case, oracles: &[Oracle], st: &mut Stats, dept
                   st.add_finding(
                     format!("{}/is_subscribed-true-after-terminal", locus(p)),
                     format!("Subscription::is_subscribed() is true after step {} although the terminal arrived in step {}", step, tstep),
-                    case.show(),
+                    shown.clone(),
                   );
                   break;
                 }
@@ -551,12 +561,12 @@ fn eval_case_x(prop: &str, case: &Case, oracles: &[Oracle], st: &mut Stats, dept
               st.add_finding(
                 format!("{}/delivery-after-unsubscribe", locus(p)),
                 format!("{} delivered in step {} after unsubscribe returned in step {}", e.ev.show(), e.step, ai),
-                case.show(),
+                shown.clone(),
               );
             }
             // the unsubscribing step itself must not deliver anything either
             if let Some(e) = real.events.iter().find(|e| e.step == ai && e.rec >= base && e.rec < base + 100) {
-              st.add_finding(format!("{}/callback-during-unsubscribe", locus(p)), format!("{} delivered by the unsubscribe call itself", e.ev.show()), case.show());
+              st.add_finding(format!("{}/callback-during-unsubscribe", locus(p)), format!("{} delivered by the unsubscribe call itself", e.ev.show()), shown.clone());
             }
           }
         }
@@ -570,7 +580,7 @@ fn eval_case_x(prop: &str, case: &Case, oracles: &[Oracle], st: &mut Stats, dept
             st.add_finding(
               format!("{}/delivery-after-unsubscribe-from-a-callback", locus(p)),
               format!("{} delivered (step {}) after the unsubscribe called from the subscriber's own callback had returned | real: {}", e.ev.show(), e.step, real.show()),
-              case.show(),
+              shown.clone(),
             );
           }
         }
@@ -593,7 +603,7 @@ fn eval_case_x(prop: &str, case: &Case, oracles: &[Oracle], st: &mut Stats, dept
                 st.add_finding(
                   format!("{}/is_subscribed-{}", locus(p), if live { "true-after-end" } else { "false-while-live" }),
                   format!("after step {} is_subscribed()={} but the subscription {}", step, live, if ended { "has ended" } else { "is live" }),
-                  case.show(),
+                  shown.clone(),
                 );
                 break;
               }
@@ -641,7 +651,7 @@ fn eval_case_x(prop: &str, case: &Case, oracles: &[Oracle], st: &mut Stats, dept
                       "while source s{} was being subscribed (its subscription #{}, the {}. source subscription of the run) source s{} (subscription #{}) still read is_subscribed()==true although nothing needs it any more | real: {} | reference: {}",
                       rs.0, rs.1, k + 1, si, ii, real.show(), r.show()
                     ),
-                    case.show(),
+                    shown.clone(),
                   );
                   break 'snaps;
                 }
@@ -658,7 +668,7 @@ fn eval_case_x(prop: &str, case: &Case, oracles: &[Oracle], st: &mut Stats, dept
                 st.add_finding(
                   format!("{}/upstream-not-torn-down", locus(p)),
                   format!("after step {} source s{} (subscription #{}) still reads is_subscribed()==true although nothing needs it any more | real: {} | reference: {}", step, si, ii, real.show(), r.show()),
-                  case.show(),
+                  shown.clone(),
                 );
                 break 'outer;
               }
@@ -674,7 +684,7 @@ fn eval_case_x(prop: &str, case: &Case, oracles: &[Oracle], st: &mut Stats, dept
                 st.add_finding(
                   format!("{}/subject-still-holds-observer", locus(p)),
                   format!("after step {} the Subject s{} holds {} observer(s), {} subscription(s) still need it | real: {} | reference: {}", step, si, have, want, real.show(), r.show()),
-                  case.show(),
+                  shown.clone(),
                 );
               }
             }
@@ -689,7 +699,7 @@ fn eval_case_x(prop: &str, case: &Case, oracles: &[Oracle], st: &mut Stats, dept
                 st.add_finding(
                   format!("{}/producer-not-stopped", locus(p)),
                   format!("source s{} (subscription #{}) made {} emissions, the reference stops it after {}", si, ii, n, want),
-                  case.show(),
+                  shown.clone(),
                 );
               }
             }
@@ -710,14 +720,14 @@ fn eval_case_x(prop: &str, case: &Case, oracles: &[Oracle], st: &mut Stats, dept
           st.add_finding(
             format!("{}/still-owned:{}", locus(p), kinds.join("+")),
             format!("after the end and after dropping every handle these tokens still have owners: {}", real.tokens_owned.join(", ")),
-            case.show(),
+            shown.clone(),
           );
         }
       }
     }
   }
   if st.samples.len() < 2 && !real.events.is_empty() {
-    st.samples.push(format!("{} => {}", case.show(), real.show()));
+    st.samples.push(format!("{} => {}", shown.clone(), real.show()));
   }
 }
 
